@@ -213,6 +213,9 @@ pub fn sweep(scn: &Scenario, dir: &Path, hist: &[Ev], ev: &Ev, stats: &mut Fault
 			}
 			stats.faults_hit += 1;
 			j += 1;
+			if mode == 1 && scn.fault_site_cap.map_or(false, |c| j >= c) {
+				break
+			}
 			if j > 400 {
 				return Err(Fail::new("machinery", format!("more than 400 fault points in {}", ev.short())))
 			}
